@@ -6,7 +6,7 @@ namespace Gorm.Drv
 namespace HC18
 open Gorm
 
-def parseFlag : String → Option Flag
+def parseFlag : String → Option SessFlag
   | "DryRun" => some .dryRun
   | "PrepareStmt" => some .prepareStmt
   | "NewDB" => some .newDB
